@@ -2,7 +2,7 @@
 import glob
 import os
 from tbxlint.facts import extract, AnalysisBroken, MODULES
-from tbxlint import locks, q
+from tbxlint import locks, q, ival
 
 ANON = '(anonymous namespace)::'
 G_LOCK = ANON + '_lock'
@@ -159,6 +159,84 @@ def r4(ctx, prog):
            'returns are `level <= <module level>` and `level <= default_level_` (%s)' % sorted(kinds), where=f.loc(f.body))
 
 
+def buffer_sources(f, ptr_decl, use_pt):
+    """what the local pointer/array `ptr_decl` designates at use_pt: list of (kind, size var decl | None, const, def-specific guards, where).
+    kind 'const': fixed array of `const` bytes; 'var': VLA whose size is local `size var`; 'len+c': heap block of (local) + c bytes."""
+    from tbxlint import rd
+    out = []
+    defs = rd.local_defs(f, ptr_decl)
+    dd = None
+    for st in f.stmts:
+        if st and st['k'] == 'DeclStmt':
+            for d in st['decls']:
+                if d.get('d') == ptr_decl:
+                    dd = (d, st)
+    if dd is None:
+        return out
+    d, dst = dd
+
+    def array_kind(decl, stmt):
+        import re
+        t = decl.get('t', '')
+        m = re.match(r'^char\[(\d+)\]$', t.replace('const ', ''))
+        if m:
+            return ('const', None, int(m.group(1)))
+        if t.startswith('char[') or decl.get('ct', '').startswith('char['):
+            # variable length array: its size expression is evaluated in the DeclStmt's children / type; find a local used in the brackets
+            for x in f.walk(stmt['i']):
+                sx = f.stmts[x]
+                if sx['k'] == 'DeclRefExpr' and sx.get('dk') == 'Var' and sx.get('d') != decl['d']:
+                    return ('var', sx['d'], None)
+            tname = re.match(r'^char\[(\w+)\]$', t)
+            if tname:
+                for st2 in f.stmts:
+                    if st2 and st2['k'] == 'DeclStmt':
+                        for d2 in st2['decls']:
+                            if d2.get('n') == tname.group(1):
+                                return ('var', d2['d'], None)
+        return None
+    ak = array_kind(d, dst)
+    if ak:
+        out.append((ak[0], ak[1], ak[2], [], f.loc(dst['i'])))
+        return out
+    # a pointer variable: one entry per reaching definition
+    reach = rd.reaching(f, ptr_decl, use_pt)
+    for i in reach:
+        df = defs[i]
+        if df['rhs'] is None:
+            return []
+        r = f.s(f.strip_casts(df['rhs']))
+        extra = ival.def_guards(f, ptr_decl, i, use_pt)
+        if r['k'] == 'DeclRefExpr' and r.get('dk') == 'Var':
+            for st in f.stmts:
+                if st and st['k'] == 'DeclStmt':
+                    for d2 in st['decls']:
+                        if d2.get('d') == r['d']:
+                            ak2 = array_kind(d2, st)
+                            if ak2:
+                                out.append((ak2[0], ak2[1], ak2[2], extra, f.loc(st['i'])))
+            continue
+        # heap: p = smart.get() / new char[len + c]
+        news = []
+        if r['k'] == 'CXXNewExpr':
+            news = [r]
+        elif r['k'] in q.CALL_KINDS and r.get('fn') == 'get' and 'obj' in r:
+            owner = f.s(f.strip_casts(r['obj']))
+            for st in f.calls():
+                if st.get('fn') == 'reset' and 'obj' in st and f.s(f.strip_casts(st['obj'])).get('d') == owner.get('d'):
+                    news += [f.stmts[x] for a in st.get('args', []) for x in f.walk(a) if f.stmts[x]['k'] == 'CXXNewExpr']
+        for nw in news:
+            if nw['ch']:
+                sz = f.s(f.strip_casts(nw['ch'][0]))
+                if sz['k'] == 'BinaryOperator' and sz.get('op') == '+':
+                    a_, b_ = f.s(f.strip_casts(sz['ch'][0])), f.s(f.strip_casts(sz['ch'][1]))
+                    if a_['k'] == 'DeclRefExpr' and b_.get('cv') is not None:
+                        out.append(('len+c', a_['d'], b_['cv'], extra, f.loc(nw['i'])))
+                        continue
+            return []
+    return out
+
+
 def r5(ctx, prog):
     ctx.rule('C09.R5', 'A4+A12: text is clamped to the maximum and marked truncated on the same path; every sink that prints the '
                        'text also prints the truncation marker', floor=5)
@@ -211,23 +289,60 @@ def r5(ctx, prog):
                '%s is cut to the maximum length without marking the record as truncated' % f.path(st['ch'][0]), where=f.loc(st['i']))
     if len(clamps) < 2:
         raise AnalysisBroken('LogPrintfFunc: expected >=2 clamp sites, found %d' % len(clamps))
-    # the length reported never exceeds the limit: every store to content.text_len is either the limit itself, or a value
-    # compared against the limit / the buffer size on a dominating branch
-    for a, rhs in q.assigns(f, 'LogContent::text_len'):
-        p = q.pt(f, a)
-        if mentions_max(rhs):
-            ok = True
-            why = 'assigned the limit itself'
-        else:
-            cbs = f.cfg.controlling_branches(p)
-            src = {f.stmts[x].get('d') for x in f.walk(rhs) if f.stmts[x]['k'] == 'DeclRefExpr'}
-            # either guarded by a comparison on the same variable, or followed by a clamp on every path
-            guarded = any(src & {f.stmts[x].get('d') for x in f.walk(c) if f.stmts[x]['k'] == 'DeclRefExpr'} for c, k, b in cbs)
-            clamp = [a2 for a2, r2 in q.assigns(f, 'LogContent::text_len') if mentions_max(r2)]
-            followed = any(f.cfg.exists_path(p, q.pt(f, c2)) for c2 in clamp)
-            ok = guarded or followed
-            why = 'guarded by a dominating comparison' if guarded else 'followed by the clamp' if followed else 'unguarded'
-        ctx.ob('C09.R5', '%s|len-bounded@L%s' % (f.name, 'clamp' if mentions_max(rhs) else 'val'), ok, 'text_len store: ' + why, where=f.loc(a['i']))
+    # the text handed to the sinks is complete: wherever a buffer filled by vsnprintf is published as text_ptr, the published
+    # text_len is provably smaller than the size of that buffer (vsnprintf needs one byte for the terminator)
+    fmt_calls = [st for st in f.stmts if st and st['k'] == 'CallExpr' and st.get('callee') == 'vsnprintf']
+    if not fmt_calls:
+        raise AnalysisBroken('LogPrintfFunc: vsnprintf not found')
+    n_pub = 0
+    for pa, prhs in q.assigns(f, 'LogContent::text_ptr'):
+        pv = f.s(f.strip_casts(prhs))
+        if not (pv and pv['k'] == 'DeclRefExpr' and pv.get('dk') == 'Var'):
+            continue     # e.g. text_ptr = fmt (no formatting)
+        pp = q.pt(f, pa)
+        # the length published together with it: the text_len store that reaches the same Dispatch
+        lens = [(a2, r2) for a2, r2 in q.assigns(f, 'LogContent::text_len') if q.pt(f, a2) and (f.cfg.dominates(q.pt(f, a2), pp) or f.cfg.dominates(pp, q.pt(f, a2)))
+                and f.enclosing(a2['i'], ('CompoundStmt',)) == f.enclosing(pa['i'], ('CompoundStmt',))]
+        if not lens:
+            ctx.ob('C09.R5', '%s|published-len' % f.name, False, 'text_ptr is published without a matching text_len store in the same block', where=f.loc(pa['i']))
+            continue
+        la, lrhs = lens[0]
+        lv = f.s(f.strip_casts(lrhs))
+        if not (lv and lv['k'] == 'DeclRefExpr' and lv.get('dk') == 'Var'):
+            ctx.ob('C09.R5', '%s|published-len' % f.name, False, 'published text_len is not a tracked local', where=f.loc(la['i']))
+            continue
+        bufs = buffer_sources(f, pv['d'], pp)
+        if not bufs:
+            ctx.ob('C09.R5', '%s|published-buffer' % f.name, False, 'cannot determine which buffer text_ptr points to', where=f.loc(pa['i']))
+            continue
+        for kind, size_expr, size_const, extra_guards, where_b in bufs:
+            n_pub += 1
+            ok, why = False, ''
+            guards = [(c, k) for c, k, b_ in f.cfg.controlling_branches(pp)] + extra_guards
+            if kind == 'const':
+                lo, hi = ival.bounds_from_guards(f, lv['d'], guards)
+                ok = hi is not None and hi < size_const
+                why = 'text_len <= %s on this path, buffer of %d bytes' % (hi, size_const)
+            elif kind == 'var':
+                # a guard comparing the length variable with the size variable:  len < size
+                for c, k in guards:
+                    cs = f.s(f.strip_casts(c))
+                    if cs and cs['k'] == 'BinaryOperator' and cs.get('op') in ('<', '>=', '>', '<='):
+                        l_, r_ = f.s(f.strip_casts(cs['ch'][0])), f.s(f.strip_casts(cs['ch'][1]))
+                        if l_.get('d') == lv['d'] and r_.get('d') == size_expr and ((cs['op'] == '<' and k == 0) or (cs['op'] == '>=' and k == 1)):
+                            ok = True
+                        if r_.get('d') == lv['d'] and l_.get('d') == size_expr and ((cs['op'] == '>' and k == 0) or (cs['op'] == '<=' and k == 1)):
+                            ok = True
+                why = 'guard text_len < buffer size variable'
+            elif kind == 'len+c':
+                ok = size_expr == lv['d'] and size_const >= 1
+                why = 'buffer allocated with text_len + %s bytes' % size_const
+            ctx.ob('C09.R5', '%s|text-fits-buffer@%s' % (f.name, kind), ok,
+                   'published length is smaller than the formatted buffer (%s)' % why if ok else
+                   'on the path that publishes the buffer declared at %s, text_len is not provably smaller than the buffer size (%s): vsnprintf keeps one byte for the '
+                   'terminator, so the last character of the record is lost / replaced by NUL' % (where_b, why), where=f.loc(pa['i']))
+    if n_pub == 0:
+        raise AnalysisBroken('LogPrintfFunc: no formatted buffer is published through text_ptr')
     # sinks: whoever reads text_ptr for output also reads text_trunc
     n = 0
     for g in prog.funcs.values():
